@@ -287,6 +287,8 @@ class Ocp(Stage):
 
     def save(self,name):
         self._untranscribe()
+        # After an edit the transcription is flagged stale but its (unpicklable) Opti instance is still attached
+        self._untranscribe_recurse(phase=1)
         import pickle
         with rockit_pickle_context():
             pickle.dump(self,open(name,"wb"))
